@@ -232,7 +232,7 @@ pub fn sched_check(case: &SchedCase, ctx: &mut CaseCtx) -> Result<(), Fail> {
             }
         }));
     }
-    let report = sched::run(scripts, &case.schedule, &["blob.chunk.rmw", "blob.refs.rmw"], Duration::from_millis(200));
+    let report = sched::run(scripts, &case.schedule, &["blob.chunk.rmw", "blob.refs.rmw"], Duration::from_millis(40));
     if let Some((t, msg)) = report.panics.first() {
         ctx.fail("conc-panic-in-thread", format!("thread {t} panicked: {msg}"))?;
     }
